@@ -160,6 +160,16 @@ func randValidKey(r *rng) *keyFields {
 
 // C15: systematic grid kty × crv × alg × ops × presence/length of x, y, d, then mutations
 func genKeyGrid(r *rng, n int, p func(string, ...any)) {
+	// the reserved algorithm 0 on the wire (Key uses 0 for "no algorithm"): with every key type
+	for _, k := range []string{
+		"a40102030020012158200000000000000000000000000000000000000000000000000000000000000001",
+		"a4010103002006215820d75a980182b10ab7d54bfed3c964073a0ee172f3daa62325af021a68f707511a",
+		"a3010403002044" + "01020304", "a30118630300204101",
+		"a40101032720062158" + "20d75a980182b10ab7d54bfed3c964073a0ee172f3daa62325af021a68f707511a",
+	} {
+		p("dec key %s", k)
+		p("keyuse %s", k)
+	}
 	ktys := []int64{0, 1, 2, 4, 3, -1}
 	crvs := []int64{0, 1, 2, 3, 4, 5, 6, 7, 8, -1}
 	algs := []int64{0, -7, -35, -36, -8, -37, 1}
